@@ -134,6 +134,10 @@ func (s *nullChunkSection) copy(dst *os.File, offset, length uint64) (uint64, ui
 func (s *nullChunkSection) clone(dst *os.File, offset, length, blocksize uint64) (uint64, uint64, error) {
 	dstAlignStart := (offset/blocksize + 1) * blocksize
 	dstAlignEnd := (offset + length) / blocksize * blocksize
+	if dstAlignEnd <= dstAlignStart {
+		// The range doesn't contain a whole block that could be cloned, fill it all with zeros
+		return s.copy(dst, offset, length)
+	}
 
 	// fill the area before the first aligned block
 	var copied, cloned uint64
